@@ -465,7 +465,7 @@ def _reparse_model(strand, layout, s0, a, b, f0, ids, bt, iso, fasta, fm=0):
                 frames[k] = frames[k].shift(1)
         tkw.update(protein_id="pid" if ids == 1 else None, product="prod" if ids == 1 else None)
     t1 = TranscriptInterval([e[0] for e in exons], [e[1] for e in exons], strand, [c[0] for c in cds] if cds else None, [c[1] for c in cds] if cds else None,
-                            frames if cds else None, sequence_name="chr1", transcript_type=tt, qualifiers={"note": ["n1", "a;b=c d"]},
+                            frames if cds else None, sequence_name="chr1", transcript_type=tt, qualifiers={"note": ["n1", "a;b=c d"], "product_source": ["ps"]},
                             parent_or_seq_chunk_parent=par, **tkw)
     txs = [t1]
     if iso == 1:  # non-coding isoform on the first exon
@@ -474,7 +474,7 @@ def _reparse_model(strand, layout, s0, a, b, f0, ids, bt, iso, fasta, fm=0):
     elif iso == 2:  # coding isoform spanning the exons' hull, CDS = whole transcript, frame 0
         txs.append(TranscriptInterval([exons[0][0]], [exons[-1][1]], strand, [exons[0][0]], [exons[-1][1]], [CDSFrame.ZERO], sequence_name="chr1",
                                       transcript_type=tt, transcript_id="tx2" if ids else None, parent_or_seq_chunk_parent=par))
-    gene = GeneInterval(txs, sequence_name="chr1", gene_type=gt, qualifiers={"gq": ["v%1"]}, parent_or_seq_chunk_parent=par, **gkw)
+    gene = GeneInterval(txs, sequence_name="chr1", gene_type=gt, qualifiers={"gq": ["v%1"], "idx": ["7"]}, parent_or_seq_chunk_parent=par, **gkw)
     coll = AnnotationCollection(genes=[gene], sequence_name="chr1", parent_or_seq_chunk_parent=par)
     return coll, gene, txs
 
